@@ -195,14 +195,7 @@ macro_rules! leave_block_step {
 			);
 			std::mem::forget(old);
 			let a = step(&mut r);
-			let mut trailing_ok = true;
-			let mut i = 0;
-			while i < 16 {
-				if buf[$size + i] != sync[i] {
-					trailing_ok = false;
-				}
-				i += 1;
-			}
+			let trailing_ok = buf[$size..$size + 16] == sync[..];
 			kani::cover!(trailing_ok, "COV trailing marker equals the header's");
 			kani::cover!(!trailing_ok, "COV trailing marker differs");
 			if $eat < $size {
